@@ -202,6 +202,8 @@ func implC16(line string) string {
 		return implRecs(f)
 	case "cb":
 		return implCb(f)
+	case "zoo":
+		return implZoo(f)
 	}
 	return "bad-op"
 }
@@ -329,6 +331,9 @@ func genC16(c *h.Ctx) {
 	}
 	for k := 0; k <= 4; k++ {
 		c.Add(fmt.Sprintf("ret %d", k), "ret")
+	}
+	for name := range zooTable {
+		c.Add("zoo "+name, "zoo")
 	}
 	for _, k := range []string{"ret", "range", "type", "num", "str", "obj", "retstr", "retfrac", "uncaught"} {
 		c.Add("cb "+k, "cb")
